@@ -53,6 +53,8 @@ def _systems(tier):
     out.append(("2x3-plain", B.spec_of(A23, np.zeros(3), np.array([1.0, 1.25, 1.5]))))
     out.append(("2x3-K-baseline", B.spec_of(A23, np.zeros(3), np.array([1.0, 1.25, 1.5]), np.array([0.5, 0.875]), 0.5)))
     out.append(("3x3-plain", B.spec_of(A33, np.zeros(3), np.array([1.0, 1.25, 1.5]))))
+    # zero and positive lower bounds in one system (masks that forbid a source with a positive lower bound are contradictory and skipped)
+    out.append(("3x3-lb-mixed", B.spec_of(A33, np.array([0.0, 0.25, 0.0]), np.array([1.0, 1.25, 1.5]))))
     if tier != "quick":
         A34 = AL.A_palette(3, 4, seeded=False)[0][1]
         out.append(("3x4-plain", B.spec_of(A34, np.zeros(4), np.array([1.0, 1.25, 1.5, 1.75]))))
@@ -88,6 +90,9 @@ def _image(Abar, c0, lo, hi):
     for k in range(8):
         x = lo + (hi - lo) * (((np.arange(n) * 3 + k * 5) % 7) / 8.0 + 0.0625)
         rows.append(c0 + (0.25 + 0.75 * ((k * 3) % 8) / 8.0) * (Abar @ x))
+    # rows whose best fit wants the sources as dim as the bounds allow (active lower bounds)
+    rows.append(c0 + 0.9 * (Abar @ lo) + 0.05 * (Abar @ (hi - lo)) * 0.0)
+    rows[1] = c0 + Abar @ (lo + (hi - lo) * (np.arange(n) == 0) * 0.5)
     return np.array(rows)
 
 
@@ -113,6 +118,8 @@ def run_unit(unit, rec):
     allm = masks(n, layers)
     for mi in range(unit["chunk"], len(allm), unit["chunks"]):
         mask = allm[mi]
+        if np.any((mask == 0) & (lo[None, :] > 0)):
+            continue
         masked = bool(np.any(mask == 0))
         sig = dict(layers=layers, option=unit["option"], masked=masked)
         case = dict(mask=mask.tolist(), option=unit["option"])
